@@ -213,8 +213,24 @@ def check_C07(run):
                "4k3/8/8/8/8/8/8/R3K2R w E - 0 1", "4k3/8/8/8/8/8/8/RR2K2R w B - 0 1", "4k3/8/8/8/8/8/4K3/R6R w KQ - 0 1",
                "pppppppp" * 8 + " w - - 0 1", "4k3/8/8/8/8/8/8/4K3" + "/" * 300 + " w - - 0 1",
                "4k3/8/8/8/8/8/8/4K3" + "8" * 31 + "7p" + "8" * 0 + " w - - 0 1"]
+    # castling fields that are syntactically fine but not backed by king and rook on their home rank
+    sem = []
+    for _ in range(3000 if th else 500):
+        b = {}
+        wk = G.sq(rng.randrange(8), rng.choice([0, 0, 0, 1, 2]))
+        bk = G.sq(rng.randrange(8), rng.choice([7, 7, 7, 6, 5]))
+        b[wk], b[bk] = "K", "k"
+        for r, ch in ((0, "R"), (7, "r")):
+            for f in rng.sample(range(8), rng.randrange(0, 4)):
+                if G.sq(f, r) not in b:
+                    b[G.sq(f, r)] = ch
+        letters = []
+        for _k in range(rng.randrange(1, 4)):
+            letters.append(rng.choice("KQkq" + "ABCDEFGH" + "abcdefgh"))
+        cas = "".join(dict.fromkeys(letters))
+        sem.append(G.fen_of(b, rng.choice("wb"), cas, "-", rng.randrange(0, 30), rng.randrange(1, 60)))
     bad = G.fen_mutants(rng, good + shred, 6000 if th else 900)
-    strings = [(s, "canonical") for s in good] + [(s, "shredder") for s in shred] + [(s, "special") for s in special] + [(s, "mutant") for s in bad]
+    strings = [(s, "canonical") for s in good] + [(s, "shredder") for s in shred] + [(s, "special") for s in special] + [(s, "mutant") for s in bad] + [(s, "castle-semantic") for s in sem]
     strings = [(s, c) for s, c in strings if "\t" not in s and "\n" not in s and all(not (0xD800 <= ord(ch) <= 0xDFFF) for ch in s)]
     enc = lambda s: " ".join(str(ord(ch)) for ch in s)
     nv = 0
@@ -231,7 +247,7 @@ def check_C07(run):
         for i, ((s, c), a, b) in enumerate(zip(strings, impl, model)):
             total += 1
             acc = a.startswith("ok ")
-            run.note_case((mode, s), f"{mode}:{c}:{'accept' if acc else 'reject'}", nontrivial=(c in ("mutant", "special")))
+            run.note_case((mode, s), f"{mode}:{c}:{'accept' if acc else 'reject'}", nontrivial=(c in ("mutant", "special", "castle-semantic")))
             if a.startswith("DIED"):
                 nv += 1
                 run.violation("parser-abort", "the parser aborted the process", {"mode": mode, "string": s, "implementation": a})
@@ -394,6 +410,32 @@ def check_C05(run):
             else:
                 newcur.append(c)
         cur = newcur
+    # stale castle files: the castling rook stood next to the e-file king and has moved away (or was traded); the
+    # conventional castling string must then denote nothing
+    def flip_tok(t):
+        return "".join(ch if not ch.isdigit() else str(9 - int(ch)) for ch in t)
+    extra = []
+    for _ in range(60 if th else 16):
+        rf = rng.choice([5, 3])
+        b = {G.sq(4, 0): "K", G.sq(rf, 0): "R"}
+        bk = rng.choice([s for s in range(40, 64) if s % 8 != rf])
+        b[bk] = "k"
+        for _k in range(rng.randrange(0, 4)):
+            s0 = rng.randrange(8, 56)
+            if s0 not in b and s0 % 8 != rf and abs(s0 % 8 - bk % 8) > 1:
+                b[s0] = rng.choice("PNBpnb")
+        cas = G.FILES[rf].upper() if rng.random() < 0.7 else ("K" if rf == 5 else "Q")
+        fen = G.fen_of(b, "w", cas)
+        up = rng.randrange(1, 6)
+        bkf, bkr = bk % 8, bk // 8
+        nbk = (bkf + rng.choice([-1, 1])) % 8
+        toks = [f"{G.FILES[rf]}1{G.FILES[rf]}{1 + up}", f"{G.FILES[bkf]}{bkr + 1}{G.FILES[nbk]}{bkr + 1}", "e1g1" if rf == 5 else "e1c1", "e1g1", "e1c1"]
+        if rng.random() < 0.5:
+            fen = G.mirror_fen(fen)
+            toks = [f"{G.FILES[bkf]}{8 - bkr}{G.FILES[nbk]}{8 - bkr}"] + [flip_tok(t) for t in toks]
+        extra.append((rng.choice("01"), fen, fen, toks, 0, 0))
+    okf = vlib.run_model_par([f"inD\t{e[1]}" for e in extra])
+    cur = cur + [e for e, o in zip(extra, okf) if o == "1"]
     rq, rs = [], []
     for c in cur:
         toks = " ".join(c[3])
